@@ -36,6 +36,25 @@ Fixpoint jprint (v : json) : bytes :=
                         match l with [] => [] | (k, x) :: r => hx 107 k ++ jprint x ++ go r end) l ++ [125]
   end.
 
+(* encoder results are compared as a set of fields: top-level entries sorted by key *)
+Fixpoint blt (a b : bytes) : bool :=
+  match a, b with
+  | _, [] => false
+  | [], _ :: _ => true
+  | x :: a', y :: b' => if x <? y then true else if y <? x then false else blt a' b'
+  end.
+Fixpoint insert_ent (e : bytes * json) (l : list (bytes * json)) : list (bytes * json) :=
+  match l with
+  | [] => [e]
+  | h :: t => if blt (fst e) (fst h) then e :: l else h :: insert_ent e t
+  end.
+Definition sort_top (v : json) : json :=
+  match v with
+  | JObj l => JObj (fold_right insert_ent [] l)
+  | _ => v
+  end.
+Definition jprint_sorted (v : json) : bytes := jprint (sort_top v).
+
 (* ---- canonical value parser (fuel = token length) *)
 Fixpoint take_hex (l acc : bytes) : option (bytes * bytes) :=
   match l with
@@ -139,9 +158,9 @@ Definition run (args : list bytes) : bytes :=
       | _, _ =>
           match payload_parse d, payload_parse j with
           | Some a, Some b =>
-              if beq op (bs "ear") then jprint (encode_answer_request a b)
+              if beq op (bs "ear") then jprint_sorted (encode_answer_request a b)
               else if beq op (bs "rar") then out p2 (decode_answer_request (encode_answer_request a b))
-              else if beq op (bs "ecps") then jprint (encode_client_response a b)
+              else if beq op (bs "ecps") then jprint_sorted (encode_client_response a b)
               else if beq op (bs "rcps") then out p2 (decode_client_response (encode_client_response a b))
               else ERR_BADCASE
           | _, _ => ERR_BADCASE
@@ -149,7 +168,7 @@ Definition run (args : list bytes) : bytes :=
       end
   | [op; a] =>
       match bool_parse a with
-      | Some b => if beq op (bs "ears") then jprint (encode_answer_response b)
+      | Some b => if beq op (bs "ears") then jprint_sorted (encode_answer_response b)
                   else if beq op (bs "rars") then out bool_print (decode_answer_response (encode_answer_response b))
                   else ERR_BADCASE
       | None => ERR_BADCASE
@@ -169,14 +188,14 @@ Definition run (args : list bytes) : bytes :=
       else if beq op (bs "epr0") || beq op (bs "rpr0") then
         match payload_parse a, bool_parse b, payload_parse c with
         | Some offer, Some ok, Some nat =>
-            if beq op (bs "epr0") then jprint (encode_poll_response_legacy offer ok nat)
+            if beq op (bs "epr0") then jprint_sorted (encode_poll_response_legacy offer ok nat)
             else out p2 (decode_poll_response_legacy (encode_poll_response_legacy offer ok nat))
         | _, _, _ => ERR_BADCASE
         end
       else
         match payload_parse a, payload_parse b, payload_parse c with
         | Some offer, Some nat, Some fp =>
-            if beq op (bs "ecpr") then X CLIENT_VERSION ++ [SP] ++ jprint (encode_client_poll offer nat fp)
+            if beq op (bs "ecpr") then X CLIENT_VERSION ++ [SP] ++ jprint_sorted (encode_client_poll offer nat fp)
             else if beq op (bs "rcpr") then
               (* bytes level with an ideal library: parse (print v) = Some v *)
               out p3 (match split_nl (encode_client_poll_bytes (fun _ => []) offer nat fp) with
@@ -189,7 +208,7 @@ Definition run (args : list bytes) : bytes :=
   | [op; a; b; c; d] =>
       match payload_parse a, payload_parse b, opt2 (payload_parse c) (zdec_parse d) with
       | Some sid, Some ty, Some (nat, n) =>
-          if beq op (bs "eppr0") then jprint (encode_proxy_poll_legacy sid ty nat n)
+          if beq op (bs "eppr0") then jprint_sorted (encode_proxy_poll_legacy sid ty nat n)
           else if beq op (bs "rppr0") then out p_poll_req0 (decode_proxy_poll_legacy (encode_proxy_poll_legacy sid ty nat n))
           else ERR_BADCASE
       | _, _, _ => ERR_BADCASE
@@ -198,14 +217,14 @@ Definition run (args : list bytes) : bytes :=
       if beq op (bs "eppr") || beq op (bs "rppr") then
         match payload_parse a, payload_parse b, opt2 (payload_parse c) (zdec_parse d), payload_parse e with
         | Some sid, Some ty, Some (nat, n), Some pat =>
-            if beq op (bs "eppr") then jprint (encode_proxy_poll sid ty nat n pat)
+            if beq op (bs "eppr") then jprint_sorted (encode_proxy_poll sid ty nat n pat)
             else out p_poll_req (decode_proxy_poll (encode_proxy_poll sid ty nat n pat))
         | _, _, _, _ => ERR_BADCASE
         end
       else
         match payload_parse a, bool_parse b, opt2 (payload_parse c) (payload_parse d), payload_parse e with
         | Some offer, Some ok, Some (nat, relay), Some reason =>
-            if beq op (bs "epr") then jprint (encode_poll_response offer ok nat relay reason)
+            if beq op (bs "epr") then jprint_sorted (encode_poll_response offer ok nat relay reason)
             else if beq op (bs "rpr") then out p3 (decode_poll_response (encode_poll_response offer ok nat relay reason))
             else ERR_BADCASE
         | _, _, _, _ => ERR_BADCASE
